@@ -8,6 +8,7 @@ from __future__ import annotations
 
 import re
 from typing import Any
+from typing import Set
 from typing import Dict
 from typing import Iterator
 from typing import List
@@ -490,6 +491,27 @@ def ambiguous_repeats(seq: Any) -> List[str]:
                         ilo, ihi, _b = items[0][1]
                         if ihi is MAXREPEAT and int(ilo) >= 1:
                             found.append("a repetition of a repetition (`(x+)+`)")
+                    # `(X+|Y)*`: a round that ends in an unbounded run of X, followed by a round that can begin with
+                    # an X, splits one run of X in as many ways as it has characters
+                    alts2 = items[0][1][1] if (len(items) == 1 and items[0][0] is sre_c.BRANCH) else [items]
+                    begin: Set[str] = set()
+                    for a in alts2:
+                        begin |= first_chars(a)[0]
+                    for i, a in enumerate(alts2):
+                        tail = unwrap(a)
+                        while tail and tail[-1][0] is sre_c.SUBPATTERN:
+                            tail = unwrap(tail[-1][1][3])
+                        if not tail or tail[-1][0] not in (sre_c.MAX_REPEAT, sre_c.MIN_REPEAT):
+                            continue
+                        _tlo, thi, tbody = tail[-1][1]
+                        if thi is not MAXREPEAT:
+                            continue
+                        if len(alts2) == 1 and len(unwrap(a)) == 1:
+                            continue  # `(x+)+`, reported above
+                        common2 = first_chars(tbody)[0] & begin
+                        if common2:
+                            found.append(f"a round of a repeated group can end in an unbounded run (alternative {i + 1}) that the next round can continue "
+                                         f"with {sorted(common2)[:3]!r}")
                 visit(body)
             elif op is sre_c.SUBPATTERN:
                 visit(av[3])
